@@ -1,45 +1,64 @@
 #!/venv/bin/python
 """tools/seedtest.py <seed dir> <name> <prop> [<prop>...]
-Confirms a seeded change (patch.diff + demo.py + meta.json) against /repo and runs the named checks on it.
-Copies it to /verif/seeded/<name>/ with the outcome recorded in meta.json. /repo is restored afterwards."""
-import json, os, shutil, subprocess, sys, time
+Confirms a seeded change (patch.diff + demo.py + meta.json) and runs the named quick checks on it.
+
+/repo is NEVER modified: the working tree's src/ is copied to a scratch directory outside /repo and /verif, the patch
+is applied there, and the checks are pointed at the copy with HIO_VERIF_SRC (read by harness/core.py only).  The scratch
+copy is removed afterwards, also when this tool is interrupted or a check times out.  The outcome is recorded in
+/verif/seeded/<name>/meta.json.  (Round 1 applied the patch inside /repo and was killed in the middle: the seeded change
+stayed in the tree.  That is why this tool no longer touches /repo.)"""
+import json, os, shutil, signal, subprocess, sys, tempfile, time
 src, name, props = sys.argv[1], sys.argv[2], sys.argv[3:]
 V = os.path.dirname(os.path.dirname(os.path.abspath(__file__)))
 PY = "/venv/bin/python"
-env = dict(os.environ, PYTHONPATH="/repo/src", PYTHONDONTWRITEBYTECODE="1")
+
 
 def sh(cmd, **kw):
     return subprocess.run(cmd, shell=True, stdout=subprocess.PIPE, stderr=subprocess.STDOUT, text=True, **kw)
 
-assert sh("git -C /repo status --porcelain").stdout.strip() == "", "/repo not clean"
-patch = os.path.join(src, "patch.diff")
-r = sh("git -C /repo apply --check %s" % patch)
-if r.returncode:
-    print("PATCH DOES NOT APPLY:", r.stdout); sys.exit(3)
-demo = os.path.join(src, "demo.py")
-d0 = sh("%s -W ignore %s" % (PY, demo), env=env, timeout=600)
-out = {"demo_clean_rc": d0.returncode}
+
+def on_term(signum, frame):
+    raise KeyboardInterrupt()
+
+
+signal.signal(signal.SIGTERM, on_term)
+scratch = tempfile.mkdtemp(prefix="hio_seed_")
 try:
-    sh("git -C /repo apply %s" % patch)
-    d1 = sh("%s -W ignore %s" % (PY, demo), env=env, timeout=600)
-    out["demo_patched_rc"] = d1.returncode
-    out["demo_patched_tail"] = d1.stdout[-400:]
-    imp = sh("%s -W ignore -c 'import hio.base.doing, hio.core.tcp.serving, hio.core.http.serving, hio.core.memo.memoing'" % PY, env=env)
+    shutil.copytree("/repo/src", os.path.join(scratch, "src"))
+    tree = os.path.join(scratch, "src")
+    env0 = dict(os.environ, PYTHONPATH="/repo/src", PYTHONDONTWRITEBYTECODE="1")
+    env1 = dict(os.environ, PYTHONPATH=tree, PYTHONDONTWRITEBYTECODE="1", HIO_VERIF_SRC=tree,
+                HIO_VERIF_EVIDENCE=os.path.join(scratch, "evidence"))
+    patch = os.path.abspath(os.path.join(src, "patch.diff"))
+    r = sh("patch -p1 --no-backup-if-mismatch < %s" % patch, cwd=scratch)
+    if r.returncode:
+        print("PATCH DOES NOT APPLY:", r.stdout)
+        sys.exit(3)
+    demo = os.path.join(src, "demo.py")
+    d0 = sh("%s -W ignore %s" % (PY, demo), env=env0, timeout=600)
+    d1 = sh("%s -W ignore %s" % (PY, demo), env=env1, timeout=600)
+    out = {"demo_clean_rc": d0.returncode, "demo_patched_rc": d1.returncode, "demo_patched_tail": d1.stdout[-400:]}
+    imp = sh("%s -W ignore -c 'import hio.base.doing, hio.core.tcp.serving, hio.core.http.serving, hio.core.memo.memoing'" % PY, env=env1)
     out["imports_ok"] = imp.returncode == 0
     out["checks"] = {}
     for p in props:
         t = time.time()
-        c = sh("./check %s --tier quick" % p, cwd=V, timeout=3600)
-        viol = [l for l in c.stdout.splitlines() if l.startswith("VIOLATION")]
-        what = [l.strip() for l in c.stdout.splitlines() if l.strip().startswith("what:")]
-        out["checks"][p] = {"rc": c.returncode, "violations": len(viol), "first": what[:1], "wall_s": round(time.time() - t, 1)}
+        try:
+            c = sh("./check %s --tier quick" % p, cwd=V, env=env1, timeout=1800)
+            rc, txt = c.returncode, c.stdout
+        except subprocess.TimeoutExpired as ex:
+            rc, txt = "timeout", (ex.stdout or "")
+            sh("pkill -f 'tlc2[.]TLC'")
+        viol = [l for l in txt.splitlines() if l.startswith("VIOLATION")]
+        what = [l.strip() for l in txt.splitlines() if l.strip().startswith("what:")]
+        out["checks"][p] = {"rc": rc, "violations": len(viol), "first": what[:1], "wall_s": round(time.time() - t, 1)}
 finally:
-    sh("git -C /repo checkout -- .")
-assert sh("git -C /repo status --porcelain").stdout.strip() == ""
+    shutil.rmtree(scratch, True)
 dst = os.path.join(V, "seeded", name)
 os.makedirs(dst, exist_ok=True)
 for f in ("patch.diff", "demo.py"):
-    shutil.copy(os.path.join(src, f), dst)
+    if os.path.abspath(src) != os.path.abspath(dst):
+        shutil.copy(os.path.join(src, f), dst)
 meta = json.load(open(os.path.join(src, "meta.json")))
 meta["confirmed_by_me"] = out
 meta["detected_by"] = sorted(p for p, v in out["checks"].items() if v["rc"] == 1)
